@@ -199,7 +199,10 @@ def run_property(prop, tier, seed, replay=None):
                 continue
             seen_sigs.add(f.signature)
             if f.kind == "input" and f.case and not replay:
-                f = shrink(prop, runner, f)
+                try:
+                    f = shrink(prop, runner, f)
+                except Exception:      # the failing input is reported as generated
+                    runner.call_timeout = None
             k = common.match_known(prop.id, f.signature)
             if k is not None and not replay:
                 known_hits.append((k, f))
@@ -224,7 +227,10 @@ def run_property(prop, tier, seed, replay=None):
             "samples": all_cases[:3] + all_cases[-2:] if all_cases else [],
             "traces_validated_against_impl": len([c for c in all_cases if case_id(c) in impl and case_id(c) in model]),
         })
-        coverage.update(prop.stats(all_cases, impl, model))
+        try:
+            coverage.update(prop.stats(all_cases, impl, model))
+        except Exception as e:
+            coverage["stats_error"] = repr(e)
         for k, f in known_hits:
             out_lines.append("KNOWN-FINDING: property=%s %s [%s]" % (prop.id, k.get("what_fails", ""), f.signature))
         rc = 0
